@@ -304,6 +304,11 @@ let op_mb = function OAdd (mb, _, _, _, _) | OSeen (mb, _) | ORemove (mb, _) | O
 let () =
   Mlutil.iter_lines (fun line ->
     let (kind, ins, outs) = Mlutil.split_case line in
+    (* upg: a fixture in the pinned format holding what <setup> says, opened by the code under test, then <ops>:
+       for the model and the ordered map this is the history  <setup>,C.<cap>,<ops>  started without a cap *)
+    let (kind, ins) = match kind, ins with
+      | "upg", [c; p; setup; ops] -> ("hist", ["0"; p; setup ^ ",C." ^ c ^ "," ^ ops])   (* the fixture was written without a cap *)
+      | _ -> (kind, ins) in
     match kind, ins with
     | "plan", [capf; poolf; histf; opf] ->
         let (st, ctx) = run_hist (mk_ctx capf poolf) (parse_ops histf) in
